@@ -54,6 +54,12 @@ RULES = {
         "as the column-index array (times BlockHeight*BlockWidth for BCSR, entries_per_nonzero for mirror buffers); extents compared as "
         "polynomials over the source's accessors. Broken (e.g. transpose allocating rows(x)+1 instead of columns(x)+1) -> heap overrun / "
         "uninitialised row_ptr tail for every non-square matrix.", 16),
+    "C02.E2.banded-offset": (
+        "band-offset convention of SparseMatrixBanded (class documentation: bottom-left diagonal 0, main diagonal rows - 1): every linear "
+        "expression or equality in banded code (the class, conversions from/to it, Arch::Apply::banded kernels) of the shape "
+        "+-(D - 1) +- col +- row [+- offset] with exactly one matrix-dimension atom D states offset = col - row + D - 1, and D must be the "
+        "row count - in the graph constructor, CSR->Banded (both passes), operator(), extract_diag, Banded->CSR and the kernels alike "
+        "(sibling agreement). Broken (columns instead of rows) -> every rectangular matrix converts with shifted bands.", 9),
     "C02.size-pairing": (
         "every array pushed into _elements/_indices is paired, in order, with a push of the same extent into _elements_size/"
         "_indices_size. Broken -> clone(Deep/Weak), cross-type convert copy a wrong number of entries.", 80),
@@ -471,6 +477,167 @@ def extent_rules(ck, fam, seen_fail):
                         want[m] = want.get(m, 0) + c1 * c2
                 want = {m: c for m, c in want.items() if c}
                 ob("val", ev == want, "val_in array allocated with %s entries; col_ind_in has %s entries, entries per non-zero %s" % (pshow(ev), pshow(eci), pshow(factor)))
+
+
+# -------------------------------------------------------------------------------------------------
+# E2 (light): the band-offset convention of SparseMatrixBanded
+# -------------------------------------------------------------------------------------------------
+
+BANDED_DOC = "main diagonal has offset rows - 1"      # kernel/lafem/sparse_matrix_banded.hpp, class documentation
+
+
+def lin(it, e, depth=0):
+    """linear normal form of an integer expression: ({atom key: coeff}, const, {atom key: node}) or None"""
+    e = L.unwrap(e)
+    k = e.get("k")
+    if depth > 14:
+        return None
+    if k == "Int":
+        return {}, int(e["v"]), {}
+    if k in ("Construct", "TempObj") and len(e.get("a", [])) == 1:
+        return lin(it, e["a"][0], depth + 1)
+    if k == "Ref" and e.get("dk") == "local" and L.INT_T.match(it.fn.ntype(e)):
+        d = it.localdefs.get(e["d"])
+        if d is not None and not it.reassigned(e["d"]) and not it.is_loop_var(e["d"]):
+            return lin(it, d, depth + 1)
+    if k == "Bin" and e.get("op") in ("+", "-"):
+        a, b = lin(it, e["lhs"], depth + 1), lin(it, e["rhs"], depth + 1)
+        if a is None or b is None:
+            return None
+        sg = 1 if e["op"] == "+" else -1
+        co = dict(a[0])
+        for m, c in b[0].items():
+            co[m] = co.get(m, 0) + sg * c
+        nodes = dict(a[2])
+        nodes.update(b[2])
+        return {m: c for m, c in co.items() if c}, a[1] + sg * b[1], nodes
+    if k == "Un" and e.get("op") == "-":
+        a = lin(it, e["e"], depth + 1)
+        return None if a is None else ({m: -c for m, c in a[0].items()}, -a[1], a[2])
+    if k == "Bin" and e.get("op") == "*":
+        a, b = lin(it, e["lhs"], depth + 1), lin(it, e["rhs"], depth + 1)
+        if a is not None and b is not None:
+            for x, y in ((a, b), (b, a)):
+                if not x[0]:
+                    return {m: c * x[1] for m, c in y[0].items() if c * x[1]}, y[1] * x[1], y[2]
+        # a product of two non-constants is one opaque atom
+    key = L._norm_extent(it, e)
+    return {key: 1}, 0, {key: e}
+
+
+def dim_role(it, node, roles_tab):
+    """'rows' / 'columns' if the atom is a matrix dimension (by accessor, slot, parameter or member name)"""
+    node = L.unwrap(node)
+    k = node.get("k")
+    if k == "Ref" and node.get("dk") == "param":
+        nm = node["n"]
+        nm = nm[:-3] if nm.endswith("_in") else nm
+        return nm if nm in DIM_ROLES else None
+    if k == "Member":
+        nm = node.get("n", "").lstrip("_")
+        nm = {"num_rows": "rows", "num_cols": "columns", "num_columns": "columns"}.get(nm, nm)
+        return nm if nm in DIM_ROLES else None
+    if k == "MCall" and node.get("n") in ("at", "operator[]") and node.get("obj", {}).get("k") == "Member" and L.SCAL_RE.search(node["obj"].get("qn", "")) \
+            and node.get("a") and L.unwrap(node["a"][0]).get("k") == "Int":
+        cls = L.short(node["obj"].get("qn", "").rsplit("::", 1)[0])
+        r = roles_tab.get("SparseMatrixBanded", {}).get(int(L.unwrap(node["a"][0])["v"]), set()) if "Container" in cls else set()
+        for x in DIM_ROLES:
+            if x in r:
+                return x
+        return None
+    r = role_of(it, node)
+    if r is not None and r.name in DIM_ROLES:
+        return r.name
+    return None
+
+
+def banded_candidates(fam, facts, roles_tab):
+    """yield (fn, interp, node, text of the linear form, dimension atom node, its role) for every linear expression /
+    equality inside banded code that has the shape  +-(D - 1) + (other atoms with coefficients +-1)  with exactly one
+    matrix-dimension atom D: these are the statements of the band-offset relation offset = col - row + D - 1."""
+    seen_fn = set()
+    fns = []
+    for fn in facts.functions:
+        if fn.body is None or fn.tk not in ("inst", "plain", "spec"):
+            continue
+        in_scope = L.short(fn.cls).startswith("SparseMatrixBanded") or re.search(r"Arch::\w+::banded|ApplyBanded", fn.qn) \
+            or any("SparseMatrixBanded" in fn.type(p["t"]) for p in fn.params)
+        if in_scope:
+            fns.append(fn)
+    for fn in fns:
+        it = L.Interp(fam, fn)
+        loopvars = set()
+        for n in fn.nodes():
+            if n.get("k") == "For" and n.get("init") is not None and n["init"].get("k") == "Decl":
+                for v in n["init"]["vars"]:
+                    loopvars.add(v["d"])
+        it.is_loop_var = lambda d, lv=loopvars: d in lv
+        par = it.par
+        for n in fn.nodes():
+            k = n.get("k")
+            form = None
+            if k == "Bin" and n.get("op") == "==":
+                a, b = lin(it, n["lhs"]), lin(it, n["rhs"])
+                if a is None or b is None:
+                    continue
+                co = dict(a[0])
+                for m, c in b[0].items():
+                    co[m] = co.get(m, 0) - c
+                nodes = dict(a[2])
+                nodes.update(b[2])
+                form = ({m: c for m, c in co.items() if c}, a[1] - b[1], nodes)
+            elif k == "Bin" and n.get("op") in ("+", "-"):
+                p = par.get(id(n))
+                while p is not None and p.get("k") in ("Cast",) or (p is not None and p.get("k") in ("Construct", "TempObj") and len(p.get("a", [])) == 1):
+                    p = par.get(id(p))
+                if p is not None and p.get("k") == "Bin" and p.get("op") in ("+", "-", "=="):
+                    continue
+                form = lin(it, n)
+            if form is None:
+                continue
+            co, const, nodes = form
+            if any(abs(c) != 1 for c in co.values()) or len(co) < 2:
+                continue
+            dims = [(m, dim_role(it, nodes[m], roles_tab)) for m in co]
+            dims = [(m, r) for m, r in dims if r]
+            if len(dims) != 1:
+                continue
+            m, role = dims[0]
+            if const != -co[m]:
+                continue
+            txt = " ".join("%s%s" % ("+" if c > 0 else "-", a) for a, c in sorted(co.items())) + " %+d" % const
+            key = (fn.full, n.get("l"), txt)
+            if key in seen_fn:
+                continue
+            seen_fn.add(key)
+            yield fn, it, n, txt, nodes[m], role
+
+
+def banded_rules(ck, fam, facts, roles_tab, seen_fail):
+    src = featlib.repo_path("kernel/lafem/sparse_matrix_banded.hpp")
+    try:
+        doc_ok = BANDED_DOC in re.sub(r"\s+", " ", re.sub(r"\n\s*\*", " ", open(src).read()))
+    except OSError:
+        doc_ok = False
+    if not doc_ok:
+        ck.incomplete("C02.E2.banded-offset", "the class documentation of SparseMatrixBanded no longer states %r" % BANDED_DOC)
+        return
+    counts = {}
+    for fn, it, n, txt, D, role in banded_candidates(fam, facts, roles_tab):
+        key = L.fkey(fn)
+        i = counts.get(fn.full, 0)
+        counts[fn.full] = i + 1
+        sub = "offset-form%d" % i
+        ok = role == "rows"
+        if not ok:
+            if ("C02.E2.banded-offset", key, sub) in seen_fail:
+                continue
+            seen_fail.add(("C02.E2.banded-offset", key, sub))
+        ck.ob("C02.E2.banded-offset", "%s/%s" % (key, sub), ok,
+              "%s  [linear form: %s]: the dimension entering the band-offset relation offset = col - row + rows - 1 is %s (%s)%s" % (
+                  render(n)[:80], txt, role, render(D)[:40],
+                  "" if ok else "; the class documentation ('%s'), the constructor, operator(), start/end_offset, CSR<-Banded and the banded kernels all use the row count: for rows != columns the bands are shifted by columns - rows" % BANDED_DOC),
+              fn.file, n.get("l"), sample={"function": fn.full, "expression": render(n)[:100], "dimension": role})
 
 
 # -------------------------------------------------------------------------------------------------
@@ -907,6 +1074,7 @@ def run(tier):
         e1_rules(ck, fam, roles_tab, seen_fail)
         pairing_rules(ck, fam, seen_fail)
         extent_rules(ck, fam, seen_fail)
+        banded_rules(ck, fam, fx, roles_tab, seen_fail)
         is_driver = fx.tu.endswith("c02_convert.cpp")
         if is_driver:
             clone_rules(ck, fam, seen_fail)
@@ -918,6 +1086,9 @@ def run(tier):
         "E1 role agreement of the _scalar_index dimension slots (roles from the classes' own accessors) at every fill, result construction "
         "and Transpose kernel call, with rows<->columns swapped on every exit of transpose; allocate/size pairing; per-CloneMode aliasing table "
         "of Container::clone extracted by path-sensitive interpretation and compared with the enum documentation; sharing vs converting in "
-        "Container::assign for the four (data type, index type) same/different combinations. Not decided: kind-correctness and completeness of the "
-        "conversion loops themselves (CSR<-Banded/BCSR, transpose counting sort, permute; DESIGN clause 3 / E2), value equality after chains of "
+        "Container::assign for the four (data type, index type) same/different combinations, composed with the clone table for the templated "
+        "cross-type clone (promised-fresh arrays never alias the source); extents of arrays handed to result constructors; the band-offset "
+        "convention offset = col - row + rows - 1 at every statement of it in banded code (siblings must agree with the class documentation). "
+        "Not decided: kind-correctness and completeness of the "
+        "conversion loops themselves beyond these (CSR<-Banded/BCSR coverage of row_ptr, transpose counting sort, permute; DESIGN clause 3 / E2), value equality after chains of "
         "operations, sortedness of produced column indices, cross-type CSR<-Banded (does not instantiate for DT2_!=DT_, a compile error, not a wrong result).")
